@@ -277,7 +277,11 @@ func verifC36Draw(n int) []verifC36Call {
 	calls := make([]verifC36Call, n)
 	for i := range calls {
 		c := &calls[i]
-		c.method = []string{"u", "p", "x"}[verifChoice("method", 3)]
+		c.method = "u"
+		if i < 2 {
+			// (a third call, thorough tier, is a unary call: it is there to find state left behind by the first two)
+			c.method = []string{"u", "p", "x"}[verifChoice("method", 3)]
+		}
 		c.advertise = verifNondetBool("advertise")
 		c.ptrParams = verifNondetBool("params_via_segment")
 		outs := 1
@@ -304,7 +308,7 @@ func verifC36Draw(n int) []verifC36Call {
 //verif:stub (*github.com/Query-farm/vgi-rpc-go/vgirpc.ShmSegment).ReadBatch = verifC36ReadBatch
 //verif:stub (*github.com/Query-farm/vgi-rpc-go/vgirpc.ShmSegment).FreeOffset = verifC36Free
 //verif:stub github.com/Query-farm/vgi-rpc-go/vgirpc.shmMinBatchBytes = verifC36MinBytes
-//verif:bound sessions of 2 (thorough: 3) calls, each unary (value or handler error) | producer | exchange with 1..2 outputs, every output large (200 B, over the 128 B shm threshold) or small (16 B); in the shm run the segment is advertised on ANY subset of the requests, the parameter batch and every exchange input travel inline or through the segment (a well-behaved client: only once a segment is attached, and stream inputs only when this request engaged shm), and the segment fits none (0 B), one large batch (250 B) or everything; the client resolves and releases every pointer it receives after each call. The segment is its allocation contract (C34 decides the allocator), IPC is abstract, handlers are ghosts
+//verif:bound sessions of 2 calls, each unary (value or handler error) | producer | exchange with 1..2 outputs (thorough: followed by a third, unary, call), every output large (200 B, over the 128 B shm threshold) or small (16 B); in the shm run the segment is advertised on ANY subset of the requests, the parameter batch and every exchange input travel inline or through the segment (a well-behaved client: only once a segment is attached, and stream inputs only when this request engaged shm), and the segment fits none (0 B), one large batch (250 B) or everything; the client resolves and releases every pointer it receives after each call. The segment is its allocation contract (C34 decides the allocator), IPC is abstract, handlers are ghosts
 func verifH_C36_same_results_and_no_leak() {
 	n := 2
 	if verifTier() == 1 {
